@@ -123,13 +123,17 @@ class DataType:
         if vtype is self.kind:
             return self
 
+        # (a kind that is a subclass of a builtin kind - Vector(xs, dtype=MyFloat) - takes its
+        # builtin kind's place on the ladders, like the value: it is never narrowed below it)
+        own = kind_of_type(self.kind)
+
         # Case 3: Numeric ladder (bool → int → float → complex)
         if self.is_numeric and isinstance(value, (int, float, complex, bool)):
-            if self.kind is complex or vtype is complex:
+            if own is complex or vtype is complex:
                 new_kind = complex
-            elif self.kind is float or vtype is float:
+            elif own is float or vtype is float:
                 new_kind = float
-            elif self.kind is int or vtype is int:
+            elif own is int or vtype is int:
                 new_kind = int
             else:
                 new_kind = bool
@@ -140,7 +144,7 @@ class DataType:
 
         # Case 4: Temporal ladder (date → datetime)
         if self.is_temporal and isinstance(value, (date, datetime)):
-            if self.kind is datetime or vtype is datetime:
+            if own is datetime or vtype is datetime:
                 new_kind = datetime
             else:
                 new_kind = date
